@@ -597,6 +597,12 @@ class SDRAMPHYModel(Module):
             init           = bank_init[i]) for i in range(nbanks)]
         self.submodules += banks
 
+        # Column address: A10 is the auto-precharge flag, column bits above it are shifted by one.
+        def phase_col(phase):
+            if colbits > 10:
+                return Cat(phase.address[:10], phase.address[11:colbits + 1])
+            return phase.address
+
         # Connect DFI phases to Banks (CMDs, Write datapath) ---------------------------------------
         for nb, bank in enumerate(banks):
             # Bank activate
@@ -629,7 +635,7 @@ class SDRAMPHYModel(Module):
                 self.comb += writes[np].eq(phase.write)
                 cases[2**np] = [
                     bank_write.eq(phase.bank == nb),
-                    bank_write_col.eq(phase.address)
+                    bank_write_col.eq(phase_col(phase))
                 ]
             self.comb += Case(writes, cases)
             self.comb += [
@@ -660,7 +666,7 @@ class SDRAMPHYModel(Module):
                 self.comb += reads[np].eq(phase.read)
                 cases[2**np] = [
                     bank.read.eq(phase.bank == nb),
-                    bank.read_col.eq(phase.address)
+                    bank.read_col.eq(phase_col(phase))
             ]
             self.comb += Case(reads, cases)
 
